@@ -11,7 +11,7 @@ Abstract cases (table spec as in C06: `id:N | rw:N:SEQ | txt:TABLE`):
                                 exactly the eligible set (STATISTICAL: the generator sizes n so that a miss
                                 has probability < 1e-12)
   freq  SPEC letter per calls   `calls` calls of Optimize on `per` copies of one letter; codon counts
-                                (STATISTICAL: 7 sigma band around N·w/max)
+                                (STATISTICAL: 8 sigma + 1 band around N·w/max)
   rp    length seed SPEC        random.ProteinSequence(length, seed), then Optimize + Translate under SPEC
   hist  SPEC n STEP…            one private table instance through a history of steps `O:protein` (n calls of
                                 Optimize), `W:seq` (OptimizeTable in place), `T:dna` (Translate), `S:i,j` (swap two entries' letters in place): a result must
@@ -133,6 +133,22 @@ def dedup (l : List Str) : List Str := l.foldl (fun acc x => if acc.contains x t
 
 def sameSet (a b : List Str) : Bool := a.all b.contains && b.all a.contains
 
+/-- is the table of the case inside C07's quantifier?  Decidable from the case alone: one of the 25 default tables,
+a re-weighting of one, or a text table satisfying `WF`.  For such a case a request the harness does not answer
+(crash, timeout, panic, error for the whole request) is a FAILURE: "rejected with an error rather than a crash". -/
+def specInDomain (spec : String) : Bool :=
+  if spec.startsWith "id:" then Spec.Ncbi.ids.contains (natOfStr (spec.drop 3).toString)
+  else if spec.startsWith "rw:" then
+    match (spec.drop 3).toString.splitOn ":" with
+    | n :: _ => Spec.Ncbi.ids.contains (natOfStr n)
+    | _ => false
+  else if spec.startsWith "txt:" then decide (WF (parseTable (spec.drop 4).toString))
+  else false
+
+def noAnswer (kind spec st : String) : Verdict :=
+  { corr := false, judge := if specInDomain spec then some false else none, cls := kind ++ "/NO-ANSWER-" ++ st,
+    detail := "the harness did not answer this request (" ++ st ++ "): a crash, a hang or an error where the property demands a result" }
+
 /-- correspondence and property verdict for `n` runs of Optimize(p) under table `t` -/
 def judgeRuns (kind : String) (t : Table) (k : TKind) (p : Str) (n : Nat) (runs : List Run) : Bool × Bool × String × String :=
   let ms := modelStatus t p
@@ -165,13 +181,13 @@ def judgeOpt (kind spec : String) (p : Str) (n : Nat) (out : List String) : Verd
       { corr := corr, judge := if decide (WF t) then some j else none,
         cls := (if p.length ≤ 1 then "triv:" else "") ++ (if kind == "union" then "stat:union/" else "opt/") ++ tag,
         detail := detail }
-  | st :: _ => { corr := false, judge := none, cls := "request-" ++ st }
-  | [] => { corr := false, judge := none, cls := "no-reply" }
+  | st :: _ => noAnswer "opt" spec st
+  | [] => noAnswer "opt" spec "no-reply"
 
 /-- a history on one private table instance: `W:seq` re-weights it in place, `O:protein` optimizes `n` times,
 `T:dna` translates.  Every `O` / `T` step is judged against the table text the harness reports at that moment
 (so the re-weighting itself is taken as given; that it is right is C08's business). -/
-def judgeHist (n : Nat) (steps : List String) (out : List String) : Verdict :=
+def judgeHist (spec : String) (n : Nat) (steps : List String) (out : List String) : Verdict :=
   match out with
   | "ok" :: rest =>
     let rec go (fuel : Nat) (steps : List String) (rest : List String) (corr j wf : Bool) (detail : String) (nO : Nat) :
@@ -209,8 +225,8 @@ def judgeHist (n : Nat) (steps : List String) (out : List String) : Verdict :=
     let (corr, j, wf, detail, nO) := go (steps.length + 1) steps rest true true true "" 0
     { corr := corr, judge := if wf then some j else none,
       cls := "hist/" ++ toString nO ++ "opt-of-" ++ toString steps.length ++ "steps", detail := detail }
-  | st :: _ => { corr := false, judge := none, cls := "request-" ++ st }
-  | [] => { corr := false, judge := none, cls := "no-reply" }
+  | st :: _ => noAnswer "hist" spec st
+  | [] => noAnswer "hist" spec "no-reply"
 
 def parseCounts (s : String) : List (Str × Nat) :=
   (splitNonEmpty s ",").map fun e =>
@@ -236,14 +252,14 @@ def judgeFreq (spec : String) (letter : Str) (per calls : Nat) (out : List Strin
         let pr := Float.ofInt (weightOf c) / Float.ofInt mx
         let mean := Float.ofNat total * pr
         let sd := Float.sqrt (Float.ofNat total * pr * (1 - pr))
-        Float.abs (Float.ofNat cnt - mean) ≤ 7 * sd + 1
+        Float.abs (Float.ofNat cnt - mean) ≤ 8 * sd + 1
       let j := bad == "0" && cs.all (fun (c, _) => elig.contains c) && elig.all band && sameSet elig (items.map (·.1))
       { corr := corr, judge := if decide (WF t) && letter.length == 1 && !elig.isEmpty then some j else none,
         cls := "stat:freq/" ++ kindTag k ++ "/" ++ toString elig.length ++ "codons",
         detail := if corr && j then "" else
           "expected " ++ ",".intercalate (items.map fun it => String.ofList it.1 ++ "=" ++ toString (Float.ofNat total * Float.ofInt it.2 / Float.ofInt mx)) }
-  | st :: _ => { corr := false, judge := none, cls := "request-" ++ st }
-  | [] => { corr := false, judge := none, cls := "no-reply" }
+  | st :: _ => noAnswer "freq" spec st
+  | [] => noAnswer "freq" spec "no-reply"
 
 /-- shape of an output of `ProteinSequence(length, _)`: `M`, `length - 2` standard letters, `*` -/
 def proteinShape (length : Int) (p : Str) : Bool :=
@@ -268,8 +284,8 @@ def judgeRp (length : Int) (spec : String) (out : List String) : Verdict :=
       { corr := corr, judge := if decide (WF t) then some j else none,
         cls := (if length ≤ 2 then "triv:" else "") ++ "rp/" ++ kindTag k ++ "/" ++ (if length ≤ 2 then "short" else unencReason t p),
         detail := if corr && j then "" else "model: protein " ++ mst ++ ", optimize " ++ ms }
-  | st :: _ => { corr := false, judge := none, cls := "request-" ++ st }
-  | [] => { corr := false, judge := none, cls := "no-reply" }
+  | st :: _ => noAnswer "rp" spec st
+  | [] => noAnswer "rp" spec "no-reply"
 
 /-! ### the weighted pick itself, run against weightedrand (op `pick`) -/
 
@@ -285,7 +301,9 @@ def sortedByWeight : List (Str × Int) → Bool
   | a :: b :: rest => decide (a.2 ≤ b.2) && sortedByWeight (b :: rest)
   | _ => true
 
-/-- `pick CHOICES SEEDS`: the chooser `weightedrand.NewChooser` builds (data order, totals, max — read with
+/-- `pick CHOICES SEEDS` — these cases run the weightedrand LIBRARY the harness links (the version /repo requires, or the
+harness's own pin v0.2.1 when /repo no longer requires it), not /repo's call of it: they tie `newChooser` / `pick` to the
+library; what ties /repo's picking to the model is `replay`.  The chooser `weightedrand.NewChooser` builds (data order, totals, max — read with
 reflect) must be the model's `newChooser` for the sorter "whatever order the library left" (which must be a
 permutation of the input sorted by weight), and for every seed the pair (r, item) must satisfy
 `pick ch r = ok item`.  The judge uses the spec reading: `item` is the choice whose interval of running totals
@@ -313,21 +331,25 @@ def judgePick (choices : String) (out : List String) : Verdict :=
       | some e => decide (before < (r : Int)) && decide ((r : Int) ≤ before + e.2) && decide (1 ≤ r) && decide ((r : Int) ≤ ch.max)
       | none => false
     let distinct := (cs.map (·.1)).all fun x => (cs.map (·.1)).count x == 1
-    let dom := version == "v0.2.1" && distinct && cs.all (fun x => decide (0 ≤ x.2)) && decide (0 < ch.max)
-    { corr := structOk && corrDraws, judge := if dom then some (structOk && specOk) else none,
-      cls := (if version == "v0.2.1" then "pick/" else "WEIGHTEDRAND-VERSION-" ++ version ++ "/") ++
+    let dom := distinct && cs.all (fun x => decide (0 ≤ x.2)) && decide (0 < ch.max)
+    -- another version of the library is linked: `newChooser` / `pick` / `pick_proportional` were transcribed from v0.2.1
+    -- and must be re-read against the new source; until then the obligation counts as broken (a judged failure)
+    let vOk := version == "v0.2.1"
+    { corr := structOk && corrDraws && vOk, judge := if dom then some (structOk && specOk && vOk) else none,
+      cls := (if vOk then "pick-lib/" else "pick-lib/WEIGHTEDRAND-VERSION-" ++ version ++ "/") ++
              (if stable then "stable-order" else "other-order") ++ "/" ++ toString cs.length ++ "choices",
-      detail := if structOk && corrDraws && specOk then "" else
+      detail := if structOk && corrDraws && specOk && vOk then "" else
+        (if vOk then "" else "weightedrand " ++ version ++ " is linked, the model was transcribed from v0.2.1: re-read newChooser / pick against it. ") ++
         "model chooser: totals " ++ toString ch.totals ++ " max " ++ toString ch.max ++ (if structOk then "" else " STRUCTURE DIFFERS") }
   | st :: _ => { corr := false, judge := some false, cls := "pick/request-" ++ st, detail := "the pick op failed: weightedrand no longer has the shape of v0.2.1?" }
-  | [] => { corr := false, judge := none, cls := "no-reply" }
+  | [] => { corr := false, judge := some false, cls := "pick/no-reply" }
 
 /-! ### frequencies over a mixed protein, and pairs of adjacent picks (statistical) -/
 
 def band (total : Nat) (pr : Float) (cnt : Nat) : Bool :=
   let mean := Float.ofNat total * pr
   let sd := Float.sqrt (Float.ofNat total * pr * (1 - pr))
-  Float.abs (Float.ofNat cnt - mean) ≤ 7 * sd + 1
+  Float.abs (Float.ofNat cnt - mean) ≤ 8 * sd + 1
 
 def itemsOf (t : Table) (l : Str) : List (Str × Int) := match eligible t l with | some x => x | none => []
 
@@ -338,7 +360,7 @@ def shareOf (items : List (Str × Int)) (c : Str) : Float :=
   | none => 0
 
 /-- `freqmix SPEC protein calls`: every letter of one mixed protein is judged: counts of each eligible codon within
-7 sigma of N_letter · w/max, nothing else ever emitted -/
+8 sigma + 1 of N_letter · w/max, nothing else ever emitted -/
 def judgeFreqMix (spec : String) (p : Str) (calls : Nat) (out : List String) : Verdict :=
   match out with
   | ["ok", reported, counts, bad] =>
@@ -366,11 +388,11 @@ def judgeFreqMix (spec : String) (p : Str) (calls : Nat) (out : List String) : V
         cls := "stat:freqmix/" ++ kindTag k ++ "/" ++ toString letters.length ++ "letters",
         detail := if corr && j then "" else "letters out of band or support: " ++
           String.ofList ((letters.zip res).filterMap fun (l, r) => if r.1 && r.2 then none else some l) }
-  | st :: _ => { corr := false, judge := none, cls := "request-" ++ st }
-  | [] => { corr := false, judge := none, cls := "no-reply" }
+  | st :: _ => noAnswer "freqmix" spec st
+  | [] => noAnswer "freqmix" spec "no-reply"
 
 /-- `pairs SPEC XY reps calls`: the protein is XY repeated; the codon pairs at positions (2i, 2i+1) are independent
-draws, so the count of (c1, c2) lies within 7 sigma of N · share(c1) · share(c2) -/
+draws, so the count of (c1, c2) lies within 8 sigma + 1 of N · share(c1) · share(c2) -/
 def judgePairs (spec : String) (unit : Str) (reps calls : Nat) (out : List String) : Verdict :=
   match out, unit with
   | ["ok", reported, counts, bad], [x, y] =>
@@ -390,8 +412,8 @@ def judgePairs (spec : String) (unit : Str) (reps calls : Nat) (out : List Strin
       { corr := corr, judge := if decide (WF t) && !ix.isEmpty && !iy.isEmpty then some (bad == "0" && support && j) else none,
         cls := "stat:pairs/" ++ kindTag k ++ "/" ++ (if x == y then "same-letter" else "two-letters"),
         detail := if corr && j then "" else "pair counts outside the independence band" }
-  | st :: _, _ => { corr := false, judge := none, cls := "request-" ++ st }
-  | [], _ => { corr := false, judge := none, cls := "no-reply" }
+  | st :: _, _ => noAnswer "pairs" spec st
+  | [], _ => noAnswer "pairs" spec "no-reply"
 
 /-! ### exact replay of one Optimize call (the harness finds the clock seed) -/
 
@@ -400,13 +422,13 @@ under which the model's choosers reproduce the real output; here the Lean model 
 `optimize stableSort t p rs` must return exactly the real DNA. -/
 def judgeReplay (spec : String) (p : Str) (out : List String) : Verdict :=
   match out with
-  | ["ok", reported, st, dna, found, _off, rs, touched] =>
+  | ["ok", reported, st, dna, found, how, rs, touched, tst, tv] =>
     match tableOf spec reported with
     | none => { corr := false, judge := none, cls := "bad-spec" }
     | some (t, k) =>
       let ms := modelStatus t p
       let draws := (splitNonEmpty rs ",").map natOfStr
-      let run : Run := { st := st, dna := dna.toList, tst := "ok", tv := p }
+      let run : Run := { st := st, dna := dna.toList, tst := tst, tv := tv.toList }
       let replayed := found == "1" && draws.length == p.length &&
         decide (DrawsOK (chooserMap stableSort t) p draws) &&
         optimize stableSort t p draws == some (.ok dna.toList)
@@ -418,12 +440,12 @@ def judgeReplay (spec : String) (p : Str) (out : List String) : Verdict :=
       let enc := specEncodable t p
       let j := if enc && !p.isEmpty then runOk t k p run else st == "err"
       { corr := corr, judge := if decide (WF t) then some j else none,
-        cls := "replay/" ++ kindTag k ++ "/" ++ (if st != "ok" then "no-run" else if found == "1" then "seed-found"
-                else if ownGenerator then "OWN-GENERATOR-membership-only" else "SEED-NOT-FOUND"),
+        cls := "replay/" ++ kindTag k ++ "/" ++ (if st != "ok" then "no-run" else if found == "1" then (if how == "probe-seed" then "seed-found-NOT-RESEEDED" else "seed-found")
+                else if ownGenerator then "OWN-GENERATOR-NO-POINTWISE-TIE-statistics-only" else "SEED-NOT-FOUND"),
         detail := if corr && j then "" else "model status " ++ ms ++ "; replay of the model on the reported draws " ++
           (if replayed then "reproduces" else "DOES NOT reproduce") ++ " the output" }
-  | st :: _ => { corr := false, judge := none, cls := "request-" ++ st }
-  | [] => { corr := false, judge := none, cls := "no-reply" }
+  | st :: _ => noAnswer "replay" spec st
+  | [] => noAnswer "replay" spec "no-reply"
 
 def judge (f out : List String) : Verdict :=
   match f with
@@ -431,7 +453,7 @@ def judge (f out : List String) : Verdict :=
   | ["union", spec, p, n] => judgeOpt "union" spec p.toList (natOfStr n) out
   | ["freq", spec, l, per, calls] => judgeFreq spec l.toList (natOfStr per) (natOfStr calls) out
   | ["rp", len, _, spec] => judgeRp (len.toInt?.getD 0) spec out
-  | "hist" :: _ :: n :: steps => judgeHist (natOfStr n) steps out
+  | "hist" :: spec :: n :: steps => judgeHist spec (natOfStr n) steps out
   | ["pick", choices, _] => judgePick choices out
   | ["freqmix", spec, p, calls] => judgeFreqMix spec p.toList (natOfStr calls) out
   | ["pairs", spec, unit, reps, calls] => judgePairs spec unit.toList (natOfStr reps) (natOfStr calls) out
